@@ -263,4 +263,11 @@ def rule_newline_crossing(ctx):
     newline_crossing_rule(ctx)
 
 
-RULES = [rule_lossless_tokenizer, rule_output_once, rule_fusion_guard, rule_fusion_table, rule_no_overlap, rule_nl_in_preproc, rule_effects, rule_newline_crossing, rule_move_across_break]
+def rule_no_codepoint_narrowing(ctx):
+    """a code point taken for its low byte changes what the tokenizer sees: `+` U+012B was lexed as `++` and the identifier that
+    starts with U+012B was split (shared with C09)"""
+    from . import c09
+    c09.rule_no_codepoint_narrowing(ctx)
+
+
+RULES = [rule_lossless_tokenizer, rule_output_once, rule_fusion_guard, rule_fusion_table, rule_no_overlap, rule_nl_in_preproc, rule_effects, rule_newline_crossing, rule_move_across_break, rule_no_codepoint_narrowing]
